@@ -42,17 +42,27 @@ def run(ctx):
         """(python value, Coq arr literal, is Hermitian under the routine's own test)"""
         q = lambda m, n: f'(mkarr true DQuat 2 {m} {n} 0)'
         if cls == 'quat_herm3': return Qm(3, 3, True), q(3, 3), True
-        if cls == 'quat_sq3': return Qm(3, 3), q(3, 3), False
+        if cls == 'quat_sq3':
+            a = Qm(3, 3); a[0, 1] = np.conjugate(a[1, 0]) + quaternion.quaternion(1.0, 0.0, 1.0, 0.0); return a, q(3, 3), False
         if cls == 'quat_1x1': return Qm(1, 1, True), q(1, 1), True
         if cls == 'quat_2x2h': return Qm(2, 2, True), q(2, 2), True
         if cls == 'quat_1x1n':                      # 1 x 1, not Hermitian (non-zero vector part)
             a = Qm(1, 1); a[0, 0] = quaternion.quaternion(1.0, 2.0, -3.0, 0.5); return a, q(1, 1), False
+        if cls in ('quat_diagdefect3', 'quat_diagdefect4'):   # Hermitian off the diagonal, one / every diagonal entry with a vector part: not Hermitian
+            k = int(cls[-1]); a = Qm(k, k, True)
+            if k == 3: a[1, 1] = a[1, 1] + quaternion.quaternion(0.0, 0.5, 0.0, 0.0)
+            else: a = a + np.eye(k) * quaternion.quaternion(0.0, 0.3, 0.0, 0.2)
+            return a, q(k, k), False
         if cls == 'quat_tall': return Qm(4, 2), q(4, 2), False
         if cls == 'quat_wide': return Qm(2, 4), q(2, 4), False
         if cls == 'quat_1xn': return Qm(1, 3), q(1, 3), False
         if cls == 'quat_nx1': return Qm(3, 1), q(3, 1), False
-        if cls == 'real_sq3': return rs.randint(-3, 4, size=(3, 3)).astype(float), '(mkarr true DReal 2 3 3 0)', False
-        if cls == 'complex_sq3': return rs.randint(-3, 4, size=(3, 3)) + 1j * rs.randint(-3, 4, size=(3, 3)), '(mkarr true DComplex 2 3 3 0)', False
+        if cls == 'real_sq3':
+            a = rs.randint(-3, 4, size=(3, 3)).astype(float); a[0, 1] = a[1, 0] + 1.0      # never symmetric (the descriptor says "not Hermitian")
+            return a, '(mkarr true DReal 2 3 3 0)', False
+        if cls == 'complex_sq3':
+            a = rs.randint(-3, 4, size=(3, 3)) + 1j * rs.randint(-3, 4, size=(3, 3)); a[0, 1] = np.conj(a[1, 0]) + 1.0
+            return a, '(mkarr true DComplex 2 3 3 0)', False
         if cls == 'quat_3d': return quaternion.as_quat_array(rs.randint(-3, 4, size=(2, 3, 4, 4)).astype(float)), '(mkarr true DQuat 3 2 3 4)', False
         if cls == 'quat_1d': return quaternion.as_quat_array(rs.randint(-3, 4, size=(3, 4)).astype(float)), '(mkarr true DQuat 1 3 0 0)', False
         if cls == 'real_3d': return rs.rand(2, 3, 4), '(mkarr true DReal 3 2 3 4)', False
@@ -85,10 +95,10 @@ def run(ctx):
      'hybrid_compute': (lambda A: solver.HybridRSPNewtonSchulz(r=1, p=2, T=1, max_iter=2, seed=0).compute(A), 'tall'),
      'cgne_compute': (lambda A: solver.CGNEQSolver(max_iter=2).compute(A), 'tall'),
     }
-    classes = ['quat_herm3', 'quat_sq3', 'quat_1x1', 'quat_1x1n', 'quat_2x2h', 'quat_tall', 'quat_wide', 'quat_1xn', 'quat_nx1', 'real_sq3', 'complex_sq3', 'sparse_sq3', 'quat_3d', 'quat_1d']
+    classes = ['quat_herm3', 'quat_sq3', 'quat_diagdefect3', 'quat_diagdefect4', 'quat_1x1', 'quat_1x1n', 'quat_2x2h', 'quat_tall', 'quat_wide', 'quat_1xn', 'quat_nx1', 'real_sq3', 'complex_sq3', 'sparse_sq3', 'quat_3d', 'quat_1d']
     def expected(kind, cls, herm):
         quat2d = cls.startswith('quat_') and cls not in ('quat_3d', 'quat_1d')
-        sq = cls in ('quat_herm3', 'quat_sq3', 'quat_1x1', 'quat_1x1n', 'quat_2x2h')
+        sq = cls in ('quat_herm3', 'quat_sq3', 'quat_1x1', 'quat_1x1n', 'quat_2x2h', 'quat_diagdefect3', 'quat_diagdefect4')
         if kind == 'dense2d': return 'accept' if quat2d else 'reject'
         if kind == 'dense': return 'accept' if quat2d else ('reject' if cls in ('real_sq3', 'complex_sq3', 'sparse_sq3') else 'either')
         if cls in ('quat_3d', 'quat_1d'): return 'reject'
@@ -96,8 +106,8 @@ def run(ctx):
         if kind == 'square': return 'accept' if sq else 'reject'
         if kind == 'hermitian': return 'accept' if (sq and herm) else 'reject'
         if kind == 'hermitian2': return 'accept' if (sq and herm and cls != 'quat_1x1') else 'reject'
-        if kind == 'tall': return 'accept' if cls in ('quat_herm3', 'quat_sq3', 'quat_1x1', 'quat_1x1n', 'quat_2x2h', 'quat_tall', 'quat_nx1') else 'reject'
-        if kind == 'wide': return 'accept' if cls in ('quat_herm3', 'quat_sq3', 'quat_1x1', 'quat_1x1n', 'quat_2x2h', 'quat_wide', 'quat_1xn') else 'reject'
+        if kind == 'tall': return 'accept' if cls in ('quat_diagdefect3', 'quat_diagdefect4', 'quat_herm3', 'quat_sq3', 'quat_1x1', 'quat_1x1n', 'quat_2x2h', 'quat_tall', 'quat_nx1') else 'reject'
+        if kind == 'wide': return 'accept' if cls in ('quat_diagdefect3', 'quat_diagdefect4', 'quat_herm3', 'quat_sq3', 'quat_1x1', 'quat_1x1n', 'quat_2x2h', 'quat_wide', 'quat_1xn') else 'reject'
     for entry, (fn, kind) in single.items():
         for cls in classes:
             val, lit, herm = arr(cls)
@@ -123,7 +133,7 @@ def run(ctx):
     for cls in classes:
         if cls == 'sparse_sq3': continue
         v, l, h = arr(cls)
-        sqc = cls in ('quat_herm3', 'quat_sq3', 'quat_1x1', 'quat_1x1n', 'quat_2x2h')
+        sqc = cls in ('quat_herm3', 'quat_sq3', 'quat_1x1', 'quat_1x1n', 'quat_2x2h', 'quat_diagdefect3', 'quat_diagdefect4')
         add('quaternion_to_complex_adjoint', cls, (lambda v=v: utils.quaternion_to_complex_adjoint(v)), D(l, opt='x', herm=h), 'accept' if sqc else 'reject')
         def callp(v=v):
             with contextlib.redirect_stdout(io.StringIO()): return utils.power_iteration_nonhermitian(v, max_iterations=3)
